@@ -2,7 +2,8 @@ import sys, io, os, itertools, traceback, signal, collections, json
 os.chdir("/tmp/sweep"); os.makedirs("cwd", exist_ok=True); os.chdir("cwd")
 sys.path.insert(0, '/repo')
 from pbhhg_py.main import main
-from pbhhg_py import parse, abstract_syntax as AS
+from pbhhg_py import abstract_syntax as AS
+from pbhhg_py import parse
 E = parse.encode_number
 def b(bs): 
     n = int.from_bytes(bs, 'little'); return f"({E(n)} ㄴ {E(len(bs))} ㅂ ㅂ ㅂㅎㄷ ㅎㄷ ㅎㄴ)"
